@@ -61,6 +61,9 @@ def forbidden_tokens(nocom):
     return bad
 
 
+# which generated file each translator writes (a failing translator only concerns the properties whose closure contains it)
+GEN_OUTPUT = {'gen_tables.py': 'gen/Gen_Defaults.v', 'gen_skeleton.py': 'gen/Gen_Skeleton.v'}
+
 HASH_P = 2305843009213693951
 
 
@@ -249,20 +252,26 @@ class Ctx:
         info = self.proof_info
         info['checker_cmd'] = ('make -C coq %s (full .vo build, Coq 8.16.1) ; coqc %s (Print Assumptions)'
                                % (prop_file + 'o', prop_file))
-        # regenerated inputs first
-        gen = os.path.join(VERIF, 'harness', 'gen_tables.py')
-        if os.path.exists(gen) and os.path.exists(os.path.join(COQ, 'gen')):
+        # regenerated inputs first: every translator harness/gen_*.py rewrites its coq/gen/*.v from the source under test
+        import glob
+        gens = sorted(glob.glob(os.path.join(VERIF, 'harness', 'gen_*.py')))
+        gen_failed = []
+        if gens and os.path.exists(os.path.join(COQ, 'gen')):
             with open(os.path.join(VERIF, '.work', '.lock'), 'w') as lk:
                 fcntl.flock(lk, fcntl.LOCK_EX)
-                r = subprocess.run([PY, gen], capture_output=True, text=True, env=impl_env())
-            if r.returncode != 0:
-                self.problem('proof-break', 'gen_tables', 'translator failed closed: ' + (r.stdout + r.stderr)[-800:],
-                             theorem='coq/gen/Gen_Defaults.v')
+                for gen in gens:
+                    r = subprocess.run([PY, '-B', gen], capture_output=True, text=True, env=impl_env())
+                    if r.returncode != 0:
+                        gen_failed.append((os.path.basename(gen), (r.stdout + r.stderr)[-800:]))
         try:
             files = self.closure(prop_file)
         except FileNotFoundError as e:
             self.problem('proof-break', 'closure', 'missing file %s' % e, theorem=prop_file)
             return False
+        for g, msg in gen_failed:
+            out = GEN_OUTPUT.get(g)
+            if out is None or out in files:        # a translator this property's theorems depend on
+                self.problem('proof-break', g, 'translator failed closed: ' + msg, theorem='coq/%s (generated by %s)' % (out or 'gen', g))
         info['files'] = files
         names = []
         bad = []
